@@ -327,6 +327,7 @@ class PeerConnection:
         self._interrupt_fileno: int = interrupt_fileno
         self._last_msg: int = 0
         self._last_read: int = 0
+        self._connected_at: int = 0
         # timestamp of last DWR sent, cleared after DWA
         self._last_dwr: int = 0
         self._read_buffer: bytes = b""
@@ -389,6 +390,7 @@ class PeerConnection:
 
         self.reset_last_message()
         self.reset_last_read()
+        self.reset_connected()
         self._read_thread.start()
         self._write_thread.start()
 
@@ -451,6 +453,12 @@ class PeerConnection:
         return int(time.time()) - self._last_dwr
 
     @property
+    def connected_since(self) -> int:
+        """Seconds since the connection was established, i.e. since the wait
+        for the capabilities exchange began."""
+        return int(time.time()) - self._connected_at
+
+    @property
     def last_read_since(self) -> int:
         """Seconds since bytes were last receveid from the network."""
         return int(time.time()) - self._last_read
@@ -508,6 +516,13 @@ class PeerConnection:
     def remove_out_bytes(self, sent_bytes: int):
         """Remove a given amount of bytes from outgoing buffer."""
         self._write_buffer = self._write_buffer[sent_bytes:]
+
+    def reset_connected(self):
+        """Mark that the connection has been established.
+
+        Starts the timer that the CER and CEA timeouts are compared against.
+        """
+        self._connected_at = int(time.time())
 
     def reset_last_message(self):
         """Mark that a full diameter message has been received.
